@@ -174,6 +174,8 @@ class TheoryOracle(walkers.DagWalker):
             theory.strings = True
         elif ty.is_custom_type():
             theory.custom_type = True
+            for arg in (ty.args or ()):
+                theory = theory.combine(self._theory_from_type(arg))
         else:
             # ty is either a function type
             theory.uninterpreted = True
